@@ -206,11 +206,11 @@ func writeCase(r *rand.Rand, base string, idx int) {
 				continue
 			}
 			target := []string{
-				filepath.Join(parent, fmt.Sprintf("escaped-%d.txt", i)),     // dangling, outside
+				filepath.Join(parent, fmt.Sprintf("escaped-%d.txt", i)),    // dangling, outside
 				filepath.Join(parent, "mid", fmt.Sprintf("escaped-%d", i)), // dangling, outside
-				filepath.Join(dir, fmt.Sprintf("inside-target-%d", i)),      // dangling, inside
+				filepath.Join(dir, fmt.Sprintf("inside-target-%d", i)),     // dangling, inside
 				filepath.Join(parent, "top.txt"),                           // existing file outside
-				fmt.Sprintf("../../relative-escape-%d", i),                  // dangling, relative
+				fmt.Sprintf("../../relative-escape-%d", i),                 // dangling, relative
 			}[r.Intn(5)]
 			if os.Symlink(target, fp) == nil {
 				pre = append(pre, rel+" -> "+target)
